@@ -239,9 +239,25 @@ def combo_case(case):
         model = M.make(name) if name != "Kauri" else M.make("Kauri", min_samples_leaf=3, min_samples_split=6)
         err, steps = _fit_probe(model, bad)
         _judge(err, steps, model, False, v, dict(target=name, param="X", value=tag, expect="out", history="after refusals" if kind != "data" else "none"), {"data": tag, "_probe_X": X})
-    elif kind == "before_fit":
+    elif kind in ("before_fit", "before_fit_transported"):
         name, call = arg
         model = M.make(name)
+        if kind == "before_fit_transported":
+            # a never-fitted estimator, and one whose fit was refused, after a pickle / deepcopy / cloudpickle round trip (sent to a worker, copied
+            # inside a pipeline): still without a model
+            from mc import transport
+            if name == "Kauri" and seed % 2 == 0:
+                model = M.make("Kauri", min_samples_leaf=3, min_samples_split=4)
+                try:
+                    model.fit(X)
+                except Exception:  # noqa
+                    pass
+            elif seed % 2 == 0:
+                try:
+                    model.fit(np.where(np.eye(N, D) > 0, np.nan, X))
+                except Exception:  # noqa
+                    pass
+            model = transport.roundtrip(model, transport.pick((name, call)))
         try:
             buf = io.StringIO()
             with contextlib.redirect_stdout(buf), warnings.catch_warnings():
@@ -377,6 +393,7 @@ def explorers(tier, seed):
         calls = ["predict", "score"] + (["predict_proba"] if name != "Kauri" else ["print_kauri_tree"]) + \
                 (["get_selection"] if name in M.SPARSE else []) + (["find_active_points"] if name == "Douglas" else [])
         c3 += [("before_fit", (name, c), seed) for c in calls]
+        c3 += [("before_fit_transported", (name, c), seed + s_) for c in calls for s_ in (0, 1)]
     c4 = []
     for fn, (base, dom) in FUNCS.items():
         for param, d in dom.items():
